@@ -51,15 +51,19 @@ func lexMain(args []string) error {
 
 const maxLexTokens = 20000
 
-// lexTokens runs the real lexer until the first EOF token.
-func lexTokens(input string) (toks []antlr.Token, outcome string) {
+// lexTokens runs the real lexer (ref: the reference indentation layer of reflexer.go over
+// the generated lexer) until the first EOF token.
+func lexTokens(input string, ref bool) (toks []antlr.Token, outcome string) {
 	outcome = "ok"
 	defer func() {
 		if r := recover(); r != nil {
 			outcome = "panic"
 		}
 	}()
-	lexer := parser.NewYarnSpinnerLexer(antlr.NewInputStream(input))
+	var lexer antlr.Lexer = parser.NewYarnSpinnerLexer(antlr.NewInputStream(input))
+	if ref {
+		lexer = newRefIndentLexer(input)
+	}
 	lexer.RemoveErrorListeners()
 	for {
 		t := lexer.NextToken()
@@ -153,10 +157,20 @@ func lexRecordMain(m map[string]string) error {
 		if err != nil {
 			return err
 		}
-		toks, outcome := lexTokens(string(b))
-		rec := lexRecord{ID: in.ID, Kind: in.Kind, Outcome: outcome, Toks: abstractTokens(toks, string(b))}
-		if err := w.Write(rec); err != nil {
-			return err
+		if m["ref"] != "only" {
+			toks, outcome := lexTokens(string(b), false)
+			rec := lexRecord{ID: in.ID, Kind: in.Kind, Outcome: outcome, Toks: abstractTokens(toks, string(b))}
+			if err := w.Write(rec); err != nil {
+				return err
+			}
+		}
+		if m["ref"] != "" && len(b) > 0 {
+			// the oracle's indentation layer on the same input, as a second record
+			toks, outcome := lexTokens(string(b), true)
+			rec := lexRecord{ID: in.ID, Kind: "ref:" + in.Kind, Outcome: outcome, Toks: abstractTokens(toks, string(b))}
+			if err := w.Write(rec); err != nil {
+				return err
+			}
 		}
 	}
 	return w.Close()
